@@ -208,19 +208,19 @@ func c04GenBig(r *Rand, tier string) []string {
 		fmt.Sprintf("big buf %d %d*61,1*0a,%d*62,1*0a %d:n,0:n,%d:e", ra, ra-1, ra/2, ra, ra),
 		fmt.Sprintf("big buf %d %d*61,1*0d,1*0a,%d*62 .", ra, ra*3/2, ra/2+1),
 	)
-	// 64-byte lines: byte 131071 of the stream is a '\n' and every buffer refill starts on a line start
+	// lines of 256 (thorough: 64) bytes: byte 131071 of the stream is a '\n' and every refill starts on a line start
 	{
 		var items []string
-		lines := ra/64 + 40
+		w, lines := 256, ra/256+10
 		if tier == "thorough" {
-			lines = 2*ra/64 + 9
+			w, lines = 64, 2*ra/64+9
 		}
 		for i := 0; i < lines; i++ {
-			items = append(items, fmt.Sprintf("63*%02x,1*0a", 'a'+i%26))
+			items = append(items, fmt.Sprintf("%d*%02x,1*0a", w-1, 'a'+i%26))
 		}
 		out = append(out, "big sync 100000 "+strings.Join(items, ",")+" .")
 	}
-	n := 24
+	n := 14
 	if tier == "thorough" {
 		n = 500
 	}
